@@ -265,6 +265,57 @@ theorem statB_step {s : FleetStore} (hk : KT s) (h : StatB s.b) (op : Op) : Stat
     refine h'.upd (l := s.b.level) hcnt ?_
     simp [BufStore.final, bsig, updLevel, BufStore.level]
 
+
+/-- simulated time never decreases in the fleet model, whatever the operation or kernel event -/
+theorem step_now_mono (s : FleetStore) (op : Op) : s.now ≤ (s.step op).1.now := by
+  have key : ∀ {b' : BufStore}, b'.bsig = ({ s.b with fired := [] } : BufStore).bsig → s.b.now ≤ b'.now := by
+    intro b' e
+    simp only [bsig, Prod.mk.injEq] at e
+    rw [e.1]; exact Nat.le_refl _
+  unfold FleetStore.step FleetStore.now
+  cases op with
+  | reservePut p => exact key (by simp only [liftB]; rw [bsig_reservePutP])
+  | reserveGet p => exact key (by simp only [liftB]; rw [bsig_reserveGetP])
+  | reservePutP p pr => exact key (by simp only [liftB]; rw [bsig_reservePutP])
+  | reserveGetP p pr => exact key (by simp only [liftB]; rw [bsig_reserveGetP])
+  | cancelPut t => exact key (by simp only [liftB]; rw [bsig_cancelPut])
+  | cancelGet t => exact key (by simp only [liftB]; rw [bsig_cancelGet])
+  | put p t x =>
+    simp only
+    rcases bsig_fput { s with b := { s.b with fired := [] }, newReady := [] } p t x with e | e
+    · exact key e
+    · simp only [bsig, Prod.mk.injEq] at e; rw [e.1]; exact Nat.le_refl _
+  | get p t =>
+    simp only [liftB]
+    rcases bsig_get ({ s.b with fired := [] } : BufStore) p t with e | ⟨x, _, e⟩
+    · exact key e
+    · simp only [bsig, Prod.mk.injEq] at e; rw [e.1]; exact Nat.le_refl _
+  | adv dt =>
+    simp only [FleetStore.adv]
+    split
+    · split
+      · exact Nat.le_refl _
+      · exact Nat.le_add_right _ _
+    · exact Nat.le_add_right _ _
+  | ev =>
+    simp only [FleetStore.ev]
+    split
+    · exact Nat.le_refl _
+    · rename_i e q _
+      have hgen : ∀ (x : FleetStore) (k : FKind), x.b.now ≤ (x.handle k).b.now := by
+        intro x k
+        have h := bsig_handle x k
+        simp only [bsig, Prod.mk.injEq] at h
+        rw [h.1]; exact Nat.le_refl _
+      refine Nat.le_trans ?_ (hgen _ _)
+      exact Nat.le_max_left _ _
+  | final => exact Nat.le_refl _
+
+theorem run_now_mono (ops : List Op) : ∀ s : FleetStore, s.now ≤ (s.run ops).now := by
+  induction ops with
+  | nil => intro s; exact Nat.le_refl _
+  | cons op ops ih => intro s; exact Nat.le_trans (step_now_mono s op) (ih _)
+
 theorem init_statB (cfg : FleetCfg) : StatB (init cfg).b := ⟨rfl, Nat.le_refl _, rfl⟩
 
 theorem reachD_statB {s : FleetStore} (h : ReachD s) : StatB s.b := by
